@@ -260,6 +260,9 @@ class GenerativeStep(Contract):
 
 @contract
 class EnvStep(Contract):
+    def modifies(self, I, S):
+        return [S.a["self"]]          # which fields: see the frame obligations
+
     qualname = "nasim.envs.environment.NASimEnv.step"
     tags = {"C06": ("C06",), "C13": ("C13",), "C10": ("C10",), "C12": ("C12",), "C04": ("C04",),
             "raises": ("C06", "C10", "C13"), "frame": ("C13", "C06", "C19")}
@@ -328,6 +331,9 @@ class EnvStep(Contract):
 
 @contract
 class EnvReset(Contract):
+    def modifies(self, I, S):
+        return [S.a["self"]]          # which fields: see the frame obligations
+
     qualname = "nasim.envs.environment.NASimEnv.reset"
     tags = {"C04": ("C04",), "C06": ("C06",), "C10": ("C10",), "C03": ("C03",), "raises": ("C04", "C10"),
             "frame": ("C04", "C19")}
